@@ -43,6 +43,49 @@ CLAIMED = {
             "exactly. Correspondence on ~3*10^5 operand pairs in BOTH release and dev (overflow-checking) profiles; oracle = python big integers.",
             "model Model/Amount.v hand-written; std checked_*/wrapping_rem/as-cast behaviour modelled; tie = correspondence check in both profiles",
             "Coq proof + model/implementation correspondence", "4 C18"),
+    "C02": ("Coq theorems (Props/C02.v), for every size_of table: wf x -> dec_T (enc_T x ++ r) = (Ok x, r) for Transaction, Block, "
+            "TransactionPrefix, BlockHeader and every component (all seven RingCT types with their dependent vector shapes), integers at every "
+            "width, Vec<T> for any round-tripping element; strict parse of the serialisation succeeds and fails with any non-empty trailer; "
+            "partial parse consumes exactly |enc x|; the usize every encoder returns (Model/CodecLen.v mirrors the Rust sums) equals the bytes "
+            "written. wf states the implicit-length relations, integer ranges, fixed array lengths and the decoder's 32 MiB allocation cap. "
+            "Correspondence: serialise/parse/strict/trailing on ~7*10^3 generated well-formed descriptions incl. the full RingCT-type x shape grid.",
+            "model Model/Codec.v + Model/CodecLen.v hand-written; String/UTF-8, Address, PublicKey and SubField codecs are not in this check (C12, C13, C16 cover them)",
+            "Coq proof + model/implementation correspondence", "4 C02"),
+    "C17": ("Coq theorems (Props/C17.v): the Gallina hash equals, on bit strings, the FIPS 202 sponge SPONGE[Keccak-p[1600,24], pad10*1, 1088](M,256) "
+            "with no domain-separation suffix (original Keccak-256, provably different padding from SHA3-256), with Keccak-p specified at bit level "
+            "(theta, rho, pi, chi, iota with generated offsets and round constants); digest length; byte-level shape and minimality of the padding; "
+            "every block absorbed (fuel never exhausted); hash-to-scalar = little-endian digest mod l with canonical 32-byte output. Correspondence "
+            "with src/cryptonote/hash.rs: every length 0..300 and around every multiple of 136 up to 1100, boundary digests; oracle = independent python Keccak.",
+            "model Model/Keccak.v hand-written; tiny-keccak is exercised, not modelled; tie = correspondence check",
+            "Coq proof (refinement to bit-level FIPS 202 spec) + correspondence", "4 C17"),
+    "C06": ("Coq theorems (Props/C06.v): for every two-to-one hash and every leaf count up to the 2^28 limit the in-place tree hash of the model "
+            "equals the recursive CryptoNote definition (and panics by assert above the limit); tree_hash_cnt is the largest power of two strictly "
+            "below n on 3..2^28; PoW blob = header || root || LEB128(1+n); id = H(LEB128(|blob|) || blob) with the single 202612 substitution. "
+            "Correspondence: tree_hash for every n in 1..260 and around powers of two, tx_root / serialize_hashable / id on built blocks and block 202612; "
+            "oracle = independent recursive python implementation.",
+            "model Model/TreeHash.v hand-written over an abstract hash; the miner-transaction hash is an input of the block ops (C05 covers it); tie = correspondence check",
+            "Coq proof (refinement to recursive spec) + correspondence", "4 C06"),
+    "C13": ("Coq theorems (Props/C13.v, 19): secret key accepted iff 32 bytes encoding an integer < l; accepted keys give back the same bytes in "
+            "binary/hex/consensus form; parsers accept only canonical input (unconditional). Public key accepted iff it is compress P of a valid "
+            "point; operators are the group operations on the encoded points; pub(a+b)=pub a+pub b, a(bG)=(ab)G, (P+Q)-Q=P; panic iff a stored key "
+            "does not decompress - proved for EVERY group satisfying the EdLaws record (_partial). On the executable Ed25519 model accepted keys have "
+            "y<p and no negative zero. Correspondence: 9.5k cases incl. all 38 non-canonical y, negative zeros, small-order points; model = library = "
+            "independent python Ed25519.",
+            "PARTIAL: group laws of the curve are hypotheses (EdLaws, shown satisfiable); that curve25519-dalek / the executable model is such a group "
+            "is validated by KATs and computation on every case, not proved (no elliptic-curve or primality library available)",
+            "Coq proof over an abstract group (partial) + correspondence", "4 C13"),
+    "C10": ("Coq theorems (Props/C10.v, 10): derivation(a,B) = 8(aB) = (8a)B for every valid point / accepted key; a small-order component is "
+            "cleared (B'+T -> (8a mod l)B'); sender derivation = receiver derivation; one-time key = Hs(D||varint i)G + S, recognised by the receiver - "
+            "for EVERY group satisfying EdLaws (_partial) and every Hs. Correspondence: all eight torsion offsets x boundary scalars; model = library "
+            "= independent python.",
+            "PARTIAL: group laws are hypotheses (EdLaws); model hand-written from onetime_key.rs after fix 91c3fdb",
+            "Coq proof over an abstract group (partial) + correspondence", "4 C10"),
+    "C11": ("Coq theorems (Props/C11.v, 13): m = Hs(\"SubAddr\\0\"||v||le32 i||le32 j) with the exact 48-byte layout; s' = s+m, v' = v s' (mod l); "
+            "index (0,0) returns the primary keys on all paths and is the only special case; preimage injective in (v,i,j); address record = "
+            "(net or Mainnet, SubAddress, S', V') - unconditional. S' = S+mG, V' = vS', s'G = S', v'G = V', distinct scalars mod l => distinct spend "
+            "keys - for EVERY group satisfying EdLaws (_partial). Correspondence: 81 boundary index pairs x wallets x networks; model = library = python.",
+            "PARTIAL: group laws are hypotheses (EdLaws; distinctness uses that G has order exactly l); no collision resistance assumed; address text is C12",
+            "Coq proof over an abstract group (partial) + correspondence", "4 C11"),
 }
 NOT_YET = {}
 ALL = ["C%02d" % i for i in range(1, 21)]
